@@ -146,7 +146,8 @@ func vfHistories(env *vfc.Env, prefix string, extra func(c *vfHistCase, sut *vfS
 			continue
 		}
 		m := ref.NewRefMap(a.Cfg.CheckVHash)
-		run := model.NewRunner(sut, m, res, id, model.Options{Prefix: prefix, Colliding: colliding, Groups: c.Groups, Replay: c, FullCheckEvery: a.FullCheckEvery})
+		run := model.NewRunner(sut, m, res, id, model.Options{Prefix: prefix, Colliding: colliding, Groups: c.Groups, Replay: c, FullCheckEvery: a.FullCheckEvery,
+			Route: func(key string) string { return store.VFCollisionRoute(sut.hs, key) }})
 		sut.keysFn = func() []string {
 			ks := make([]string, 0, len(m.LastWrite))
 			for k := range m.LastWrite {
